@@ -236,3 +236,61 @@ Proof.
   intros Hl. unfold encode_t, encode_typed. unfold lenient_t in Hl.
   now rewrite (to_of cenc cdec _ _ _ Hwf Hi Eo Hl).
 Qed.
+
+(* ---- the verdict class "value size exceeds available input length" ---------------------------- *)
+Lemma take_none n t : len t < n -> take n t = None.
+Proof. intros H. unfold take. destruct (n <=? len t) eqn:E; [lia|reflexivity]. Qed.
+
+Lemma take_some_firstn n t : n <= len t ->
+  take n t = Some (firstn (N.to_nat n) t, skipn (N.to_nat n) t).
+Proof. intros H. unfold take. destruct (n <=? len t) eqn:E; [reflexivity|lia]. Qed.
+
+Lemma len_skipn n (t : bytes) : n <= len t -> len (skipn (N.to_nat n) t) = len t - n.
+Proof. intros H. unfold len in *. rewrite skipn_length. lia. Qed.
+
+(* an input whose outer header declares more than there is has no first value:
+   the specification decoder rejects it whatever the target type, directly or
+   through a stream *)
+Theorem too_large_rejected b : too_large b = true ->
+  split_item b = None /\ decode b = None /\ forall s, decode_stream_t s b = None.
+Proof.
+  intros H.
+  assert (Hs : split_item b = None).
+  { destruct b as [|h t]; [discriminate|]. unfold too_large in H. unfold split_item.
+    destruct (negb (byte_ok h)); [reflexivity|].
+    destruct (h <? 128); [discriminate|].
+    assert (Hlong : forall ll,
+      (if len t <? ll then true
+       else match firstn (N.to_nat ll) t with
+            | [] => false
+            | (b0 :: _) as lb =>
+              if (b0 =? 0) && negb (ll =? 1) then false
+              else let n := of_be lb in if n <? 56 then false else len t - ll <? n
+            end) = true ->
+      match long_size ll t with
+      | Some (n, t') => match take n t' with Some (c, r) => @None (bool * bytes * bytes) | None => None end
+      | None => None
+      end = None /\
+      match long_size ll t with
+      | Some (n, t') => match take n t' with Some (c, r) => Some (true, c, r) | None => None end
+      | None => None
+      end = None /\
+      match long_size ll t with
+      | Some (n, t') => match take n t' with Some (c, r) => Some (false, c, r) | None => None end
+      | None => None
+      end = None).
+    { intros ll Hl. unfold long_size. destruct (len t <? ll) eqn:E.
+      - rewrite take_none by lia. auto.
+      - rewrite take_some_firstn by lia.
+        destruct (firstn (N.to_nat ll) t) as [|b0 lb'] eqn:Ef; [discriminate|].
+        destruct (b0 =? 0) eqn:E0; [auto|]. cbn [andb] in Hl.
+        destruct (of_be (b0 :: lb') <? 56) eqn:E56; [discriminate|].
+        rewrite take_none; [auto|]. rewrite len_skipn by lia. lia. }
+    destruct (h <? 184); [rewrite take_none by lia; reflexivity|].
+    destruct (h <? 192); [now destruct (Hlong _ H) as (_ & _ & ->)|].
+    destruct (h <? 248); [rewrite take_none by lia; reflexivity|].
+    now destruct (Hlong _ H) as (_ & -> & _). }
+  split; [assumption|]. split.
+  - unfold decode. destruct (negb (bytes_ok b)); [reflexivity|]. cbn [dec]. now rewrite Hs.
+  - intros s. unfold decode_stream_t. destruct (negb (bytes_ok b)); [reflexivity|]. cbn [dec]. now rewrite Hs.
+Qed.
